@@ -11,9 +11,13 @@ from rules.vm_ops import VM, _arms, len_atom, string_invariants
 def accessor_tags(items, r):
     """accessor method name -> ValueTag it checks (from the bodies in `impl Value`)."""
     out = {}
+    # the tag check of the accessors: the method of Value that takes a ValueTag (whatever it is called)
+    checkers = {g["name"] for g in q.find_fns(items, impl_ty="Value") if any("ValueTag" in p_.get("ty", "") for p_ in g["params"] if not p_.get("self"))} or {"check_type"}
     for f in q.find_fns(items, impl_ty="Value"):
+        if f.get("body") is None or f["name"] in checkers or not f["name"].startswith(("get_", "view_")):
+            continue
         for x in q.walk(f["body"]):
-            if x["k"] == "MethodCall" and x["m"] == "check_type":
+            if x["k"] == "MethodCall" and x["m"] in checkers and q.show(x["recv"]) == "self":
                 for a in x["args"]:
                     if a["k"] == "Path" and a["p"].startswith("ValueTag::"):
                         out[f["name"]] = q.last_seg(a["p"])
